@@ -346,10 +346,12 @@ fn respell_block_cases(r: &mut Rng, count: usize) -> Vec<Case> {
             match (&a, &bb) {
                 (Ok(la), Ok(lb)) => {
                     c.imp = "(both-compile)".into();
+                    // `Rooc.Props.C10.compile_respell_constant`: the same linear model, bit for bit
                     if sx::lin_model(la) == sx::lin_model(lb) { c.tags.push("respell-identical-output".into()); }
                     else {
                         c.tags.push("respell-different-output".into());
-                        c.oracle = format!("py:{} {} {}", if r.chance(1, 2) { "c01" } else { "c02" }, sx::model(&m1), sx::lin_model(lb));
+                        c.sig = Some("respelling-changes-output".into());
+                        c.impl_violation = Some(format!("two spellings of the same constant compile to different linear models: {}  vs  {}", sx::lin_model(la), sx::lin_model(lb)));
                     }
                 }
                 (Err(x), Err(y)) if err(x) == err(y) => { c.imp = format!("(both-rejected {})", err(x)); c.tags.push("respell-both-rejected".into()); }
@@ -358,6 +360,331 @@ fn respell_block_cases(r: &mut Rng, count: usize) -> Vec<Case> {
                     c.sig = Some("respelling-changes-acceptance".into());
                     let e = |z: &Result<rooc::LinearModel, rooc::LinearizationError>| z.as_ref().err().map(|e| err(e)).unwrap_or("(ok)".into());
                     c.impl_violation = Some(format!("two spellings of the same coefficient inside a block that is a constraint side: {} vs {}", e(x), e(y)));
+                }
+            }
+        }
+        out.push(c);
+    }
+    out
+}
+
+/// Twin models that differ ONLY in how one closed constant is spelled, with the constant in every kind of
+/// position: coefficient / bound in the objective, in an arithmetic constraint, inside a block, as an operand of a
+/// logic connective (0/1 constants), under `not`, in a bare logic assertion.  `compile_respell_constant` says the
+/// two compile to the same result; the implementation is held to that bit for bit (rows, published domains,
+/// acceptance and error kind).
+fn respell_position_cases(r: &mut Rng, count: usize) -> Vec<Case> {
+    use rooc::{Comparison, OptimizationType, VariableType};
+    let num = |v: f64| Exp::Number(v);
+    let var = |n: &str| Exp::Variable(n.into());
+    let bx = |op: BinOp, l: Exp, rr: Exp| Exp::BinOp(op, Box::new(l), Box::new(rr));
+    let ds = vec![
+        gen_model::VarDecl { name: "x".into(), ty: VariableType::Real(-4.0, 6.0) },
+        gen_model::VarDecl { name: "y".into(), ty: VariableType::Real(f64::NEG_INFINITY, 8.0) },
+        gen_model::VarDecl { name: "a".into(), ty: VariableType::Boolean },
+        gen_model::VarDecl { name: "b".into(), ty: VariableType::Boolean },
+    ];
+    let spell = |k: f64, how: usize| -> Exp {
+        match how % 6 {
+            0 => bx(BinOp::Add, num(k - 1.0), num(1.0)),
+            1 => bx(BinOp::Div, num(2.0 * k), num(2.0)),
+            2 => bx(BinOp::Sub, num(k + 1.0), num(1.0)),
+            3 => bx(BinOp::Mul, num(k / 2.0), num(2.0)),
+            4 => Exp::UnOp(UnOp::Neg, Box::new(num(-k))),
+            _ => Exp::Max(vec![num(k), num(k - 3.0)]),
+        }
+    };
+    let mut out = vec![];
+    for i in 0..count {
+        let how = r.below(6) as usize;
+        let pos = i % 8;
+        // the context as a function of the constant
+        let k = if pos >= 5 { *r.pick(&[1.0, 0.0]) } else { *r.pick(&[2.0, 3.0, -2.0, 0.5, 4.0, -1.0]) };
+        let mk = |c: Exp| -> Model {
+            let le = |l: Exp, rr: Exp| Constraint::new(l, Comparison::LessOrEqual, rr, String::new());
+            let base = le(bx(BinOp::Add, var("x"), var("y")), num(9.0));
+            let (obj, cons): (Exp, Vec<Constraint>) = match pos {
+                // objective coefficient
+                0 => (bx(BinOp::Sub, bx(BinOp::Mul, c, var("x")), var("y")), vec![base.clone(), le(Exp::UnOp(UnOp::Neg, Box::new(var("y"))), num(3.0))]),
+                // objective offset inside a block
+                1 => (Exp::Max(vec![bx(BinOp::Add, var("x"), c), var("y")]), vec![base.clone(), le(Exp::UnOp(UnOp::Neg, Box::new(var("y"))), num(3.0))]),
+                // arithmetic constraint: coefficient and bound
+                2 => (var("x"), vec![le(bx(BinOp::Add, bx(BinOp::Mul, c.clone(), var("x")), var("y")), bx(BinOp::Mul, c, num(3.0))), base.clone()]),
+                // divisor
+                3 => (var("x"), vec![le(bx(BinOp::Div, bx(BinOp::Add, var("x"), var("y")), c), num(5.0)), base.clone()]),
+                // inside abs inside a product
+                4 => (var("y"), vec![le(bx(BinOp::Mul, num(2.0), Exp::Abs(Box::new(bx(BinOp::Sub, var("x"), c)))), num(7.0)), base.clone()]),
+                // operand of a logic connective that is a value in an arithmetic constraint
+                5 => (var("x"), vec![le(bx(BinOp::Add, Exp::And(vec![var("a"), c.clone()]), Exp::Or(vec![var("b"), c])), bx(BinOp::Add, var("x"), num(2.0))), base.clone()]),
+                // under `not`, in an implication
+                6 => (var("x"), vec![le(Exp::Implies(Box::new(var("a")), Box::new(Exp::Not(Box::new(bx(BinOp::Sub, num(1.0), c))))), Exp::Iff(Box::new(var("b")), Box::new(var("a")))), base.clone()]),
+                // bare logic assertion
+                _ => (var("x"), vec![Constraint::new_logic_assertion(Exp::Or(vec![var("a"), Exp::And(vec![var("b"), c])]), String::new()), base.clone()]),
+            };
+            gen_model::build(if i % 2 == 0 { OptimizationType::Max } else { OptimizationType::Min }, obj, cons, &ds)
+        };
+        let (m1, m2) = (mk(num(k)), mk(spell(k, how)));
+        let (a, bb) = (Linearizer::linearize(m1.clone()), Linearizer::linearize(m2.clone()));
+        let (b1, b2) = (crate::props::c01::bounds_sx(&m1), crate::props::c01::bounds_sx(&m2));
+        let mut c = Case::default();
+        c.show = format!("{}  ~~respelled constant~~>  {}", format!("{}", m1).replace('\n', " ; "), format!("{}", m2).replace('\n', " ; "));
+        c.tags = vec!["respell".into(), format!("respell-position-{}", ["objective-coefficient", "objective-block", "constraint-coefficient-and-bound", "divisor", "abs-in-product", "logic-operand", "under-not-implies", "logic-assertion"][pos])];
+        c.nontrivial = true;
+        let err = |e: &rooc::LinearizationError| crate::props::c01::lin_error(e);
+        if b1 != b2 {
+            c.imp = "(bounds-differ)".into();
+            c.sig = Some("respelling-changes-bounds".into());
+            c.impl_violation = Some(format!("two spellings of the same constant: inferred ranges / published domains differ: {} {}  vs  {} {}", b1.0, b1.1, b2.0, b2.1));
+        } else {
+            match (&a, &bb) {
+                (Ok(la), Ok(lb)) if sx::lin_model(la) == sx::lin_model(lb) => { c.imp = "(both-compile)".into(); c.tags.push("respell-identical-output".into()); }
+                (Ok(la), Ok(lb)) => {
+                    c.imp = "(both-compile)".into();
+                    c.sig = Some("respelling-changes-output".into());
+                    c.impl_violation = Some(format!("two spellings of the same constant compile to different linear models: {}  vs  {}", sx::lin_model(la), sx::lin_model(lb)));
+                }
+                (Err(x), Err(y)) if err(x) == err(y) => { c.imp = format!("(both-rejected {})", err(x)); c.tags.push("respell-both-rejected".into()); }
+                (x, y) => {
+                    c.imp = format!("(acceptance-differs {} {})", x.is_ok(), y.is_ok());
+                    c.sig = Some("respelling-changes-acceptance".into());
+                    let e = |z: &Result<rooc::LinearModel, rooc::LinearizationError>| z.as_ref().err().map(|e| err(e)).unwrap_or("(ok)".into());
+                    c.impl_violation = Some(format!("two spellings of the same constant: {} vs {}", e(x), e(y)));
+                }
+            }
+        }
+        out.push(c);
+    }
+    out
+}
+
+/// Twin models in which a coefficient is spelled as a DIVISION by a constant with |d| != 1 (`x / 4`, `x / (2 + 2)`,
+/// `x / -2`, `abs{x} / 2`, `max{x, y} / 4 + y`) in one twin and as the reciprocal scale (`0.25 * x`, `x * 0.25`,
+/// `(1 / 4) * x`) in the other, inside the abs/min/max block of a bound-giving constraint, on variables without a
+/// declared finite range — so the range the bound inference derives through the `Div` arm of its reverse
+/// propagation (`tighten_expression`) is what the exact lowering of `abs{x} >= 1` needs.  Own forked random stream
+/// and a fixed number of twins, so that detection does not depend on what the other streams consumed.
+/// Compared on the implementation: inferred ranges + published domains, acceptance / error kind, rows.
+fn respell_division_cases(seed: u64, count: usize) -> Vec<Case> {
+    use rooc::{Comparison, OptimizationType, VariableType};
+    let mut r = Rng::new(seed ^ 0x00C1_0D17_5EED);
+    let r = &mut r;
+    let num = |v: f64| Exp::Number(v);
+    let var = |n: &str| Exp::Variable(n.into());
+    let bx = |op: BinOp, l: Exp, rr: Exp| Exp::BinOp(op, Box::new(l), Box::new(rr));
+    let ds = vec![
+        gen_model::VarDecl { name: "x".into(), ty: VariableType::Real(f64::NEG_INFINITY, f64::INFINITY) },
+        gen_model::VarDecl { name: "y".into(), ty: VariableType::Real(f64::NEG_INFINITY, f64::INFINITY) },
+    ];
+    let mut out = vec![];
+    for i in 0..count {
+        let d = [4.0, 2.0, -2.0, -4.0, 8.0, -8.0][i % 6];
+        let k = 1.0 / d; // exact: d is a power of two
+        let template = (i / 6) % 5;
+        // how the divisor / the scale are written
+        let divisor = || if r_chance(i, 3) { if d > 0.0 { bx(BinOp::Add, num(d / 2.0), num(d / 2.0)) } else { bx(BinOp::Sub, num(0.0), num(-d)) } } else { num(d) };
+        let scale = |e: Exp, how: usize| match how % 3 { 0 => bx(BinOp::Mul, num(k), e), 1 => bx(BinOp::Mul, e, num(k)), _ => bx(BinOp::Mul, bx(BinOp::Div, num(1.0), num(d)), e) };
+        let how = r.below(3) as usize;
+        let b = 3.0 + r.below(4) as f64;
+        let le = |l: Exp, rr: Exp| Constraint::new(l, Comparison::LessOrEqual, rr, String::new());
+        let ge = |l: Exp, rr: Exp| Constraint::new(l, Comparison::GreaterOrEqual, rr, String::new());
+        // `q` is the spelled quotient term: built once with the division, once with the scale
+        let mk = |q: &dyn Fn(Exp) -> Exp| -> Model {
+            let needs = ge(Exp::Abs(Box::new(var("x"))), num(1.0));
+            let cons = match template {
+                0 => vec![le(Exp::Abs(Box::new(q(var("x")))), num(b)), needs],
+                1 => vec![le(Exp::Max(vec![q(var("x")), var("y")]), num(b)),
+                          if k > 0.0 { ge(var("x"), num(-7.0)) } else { le(var("x"), num(7.0)) }, needs],
+                2 => vec![ge(Exp::Min(vec![q(var("x")), var("y")]), num(-b)),
+                          if k > 0.0 { le(var("x"), num(7.0)) } else { ge(var("x"), num(-7.0)) }, needs],
+                3 => if k > 0.0 { vec![le(q(Exp::Abs(Box::new(var("x")))), num(b)), needs] }
+                     else { vec![ge(q(Exp::Abs(Box::new(var("x")))), num(-b)), needs] },
+                _ => if k > 0.0 { vec![le(bx(BinOp::Add, q(Exp::Max(vec![var("x"), var("y")])), var("y")), num(b)), ge(var("y"), num(1.0)), ge(var("x"), num(-7.0)), needs] }
+                     else { vec![ge(bx(BinOp::Add, q(Exp::Max(vec![var("x"), var("y")])), var("y")), num(-b)), le(var("y"), num(1.0)), ge(var("y"), num(-5.0)), ge(var("x"), num(-7.0)), needs] },
+            };
+            gen_model::build(OptimizationType::Max, var("x"), cons, &ds)
+        };
+        let dv = divisor();
+        let m1 = mk(&|e: Exp| scale(e, how));
+        let m2 = mk(&|e: Exp| bx(BinOp::Div, e, dv.clone()));
+        let (a, bb) = (Linearizer::linearize(m1.clone()), Linearizer::linearize(m2.clone()));
+        let (b1, b2) = (crate::props::c01::bounds_sx(&m1), crate::props::c01::bounds_sx(&m2));
+        let mut c = Case::default();
+        c.show = format!("{}  ~~scale respelled as division~~>  {}", format!("{}", m1).replace('\n', " ; "), format!("{}", m2).replace('\n', " ; "));
+        c.tags = vec!["respell".into(), "respell-division".into(), format!("respell-division-template-{}", template)];
+        c.nontrivial = true;
+        let err = |e: &rooc::LinearizationError| crate::props::c01::lin_error(e);
+        if b1 != b2 {
+            c.imp = "(bounds-differ)".into();
+            c.sig = Some("respelling-changes-bounds".into());
+            c.impl_violation = Some(format!("a coefficient spelled `e / d` vs `(1/d) * e` inside a bound-giving block: inferred ranges / published domains differ: {} {}  vs  {} {}", b1.0, b1.1, b2.0, b2.1));
+        } else {
+            match (&a, &bb) {
+                (Ok(la), Ok(lb)) => {
+                    c.imp = "(both-compile)".into();
+                    if sx::lin_model(la) == sx::lin_model(lb) { c.tags.push("respell-identical-output".into()); }
+                    else {
+                        // `e / d` and `(1/d) * e` are equal in value but not identical after `normalize`: the rows are
+                        // compared semantically
+                        c.tags.push("respell-different-output".into());
+                        c.oracle = format!("py:{} {} {}", if i % 2 == 0 { "c01" } else { "c02" }, sx::model(&m1), sx::lin_model(lb));
+                    }
+                }
+                (Err(x), Err(y)) if err(x) == err(y) => { c.imp = format!("(both-rejected {})", err(x)); c.tags.push("respell-both-rejected".into()); }
+                (x, y) => {
+                    c.imp = format!("(acceptance-differs {} {})", x.is_ok(), y.is_ok());
+                    c.sig = Some("respelling-changes-acceptance".into());
+                    let e = |z: &Result<rooc::LinearModel, rooc::LinearizationError>| z.as_ref().err().map(|e| err(e)).unwrap_or("(ok)".into());
+                    c.impl_violation = Some(format!("a coefficient spelled `e / d` vs `(1/d) * e`: {} vs {}", e(x), e(y)));
+                }
+            }
+        }
+        out.push(c);
+    }
+    out
+}
+fn r_chance(i: usize, m: usize) -> bool { i % m == 1 }
+
+/// An undefined division NESTED in the numerator of another division (directly, or as an operand of + - * neg abs
+/// min max under the outer division), below an absorbing constant (`0 * _`, `_ * 0`, `0 and _`, `_ or 1`, n-ary and
+/// BinOp-spelled): `may_be_undefined` has to look through the outer division.  Own forked stream, fixed count.
+/// Each expression goes through simplify / flatten / collapses (correspondence + exact oracle: `division-erased`,
+/// `definedness-created`), and through `Linearizer::linearize` as `y + E >= 1` against the twin in which the outer
+/// `/ d` is written `* (1/d)` (same acceptance / error kind / published domains expected).
+fn nested_undefined_cases(seed: u64, count: usize) -> Vec<Case> {
+    use rooc::{Comparison, OptimizationType, VariableType};
+    let mut rr = Rng::new(seed ^ 0x0C10_7DEF_1DED);
+    let r = &mut rr;
+    let num = |v: f64| Exp::Number(v);
+    let var = |n: &str| Exp::Variable(n.into());
+    let bx = |op: BinOp, l: Exp, x: Exp| Exp::BinOp(op, Box::new(l), Box::new(x));
+    let ds = vec![
+        gen_model::VarDecl { name: "x".into(), ty: VariableType::Real(-3.0, 5.0) },
+        gen_model::VarDecl { name: "y".into(), ty: VariableType::Real(0.0, 9.0) },
+        gen_model::VarDecl { name: "a".into(), ty: VariableType::Boolean },
+    ];
+    let mut out = vec![];
+    for i in 0..count {
+        // the undefined division
+        let u = match i % 3 { 0 => bx(BinOp::Div, var("x"), num(0.0)), 1 => bx(BinOp::Div, num(1.0), var("x")), _ => bx(BinOp::Div, var("y"), bx(BinOp::Sub, num(1.0), num(1.0))) };
+        // how it sits in the numerator
+        let inner = match (i / 3) % 8 {
+            0 => u.clone(),
+            1 => bx(BinOp::Add, u.clone(), var("y")),
+            2 => bx(BinOp::Sub, var("y"), u.clone()),
+            3 => bx(BinOp::Mul, u.clone(), num(3.0)),
+            4 => Exp::UnOp(UnOp::Neg, Box::new(u.clone())),
+            5 => Exp::Abs(Box::new(u.clone())),
+            6 => Exp::Max(vec![u.clone(), var("y")]),
+            _ => Exp::Min(vec![var("y"), bx(BinOp::Add, u.clone(), num(1.0))]),
+        };
+        let d = *r.pick(&[2.0, 4.0, -2.0, 8.0]);
+        let outer = |scale: bool| if scale { bx(BinOp::Mul, inner.clone(), num(1.0 / d)) } else { bx(BinOp::Div, inner.clone(), num(d)) };
+        // the absorbing context
+        let ctx = |e: Exp| -> Exp { match (i / 24) % 6 {
+            0 => bx(BinOp::Mul, num(0.0), e),
+            1 => bx(BinOp::Mul, e, num(0.0)),
+            2 => Exp::And(vec![num(0.0), e, var("a")]),
+            3 => Exp::Or(vec![e, num(1.0)]),
+            4 => bx(BinOp::And, e, num(0.0)),
+            _ => bx(BinOp::Mul, num(0.0), bx(BinOp::Add, e, var("y"))),
+        } };
+        let e_div = ctx(outer(false));
+        for which in ["simplify", "flatten", "collapses"] {
+            out.push(one(&e_div, which, "nested-undefined"));
+        }
+        // through compile: `y + E >= 1`, division vs scale twin
+        let mk = |e: Exp| gen_model::build(OptimizationType::Max, var("y"),
+            vec![Constraint::new(bx(BinOp::Add, var("y"), e), Comparison::GreaterOrEqual, num(1.0), String::new())], &ds);
+        let (m1, m2) = (mk(ctx(outer(true))), mk(e_div.clone()));
+        let (a, b) = (Linearizer::linearize(m1.clone()), Linearizer::linearize(m2.clone()));
+        let err = |e: &rooc::LinearizationError| crate::props::c01::lin_error(e);
+        let show = |z: &Result<rooc::LinearModel, rooc::LinearizationError>| z.as_ref().err().map(|e| err(e)).unwrap_or("(ok)".into());
+        let mut c = Case::default();
+        c.show = format!("{}  ~~`* 1/d` respelled as `/ d` above an undefined division~~>  {}", format!("{}", m1).replace('\n', " ; "), format!("{}", m2).replace('\n', " ; "));
+        c.tags = vec!["respell".into(), "respell-nested-undefined".into()];
+        c.nontrivial = true;
+        c.imp = format!("({} {})", show(&a), show(&b));
+        let same = match (&a, &b) { (Ok(x), Ok(y)) => sx::lin_model(x) == sx::lin_model(y), (Err(x), Err(y)) => err(x) == err(y), _ => false };
+        if !same {
+            c.sig = Some("respelling-changes-acceptance".into());
+            c.impl_violation = Some(format!("an undefined division in the numerator of `_ / d` vs `_ * (1/d)` below an absorbing constant: {} vs {}", show(&a), show(&b)));
+        } else if a.is_ok() {
+            // both accepted although the constraint contains a division by zero / by a variable
+            c.tags.push("nested-undefined-both-accepted".into());
+        } else { c.tags.push("respell-both-rejected".into()); }
+        out.push(c);
+    }
+    out
+}
+
+/// Twin models whose only difference is a UNARY MINUS in front of a parenthesised sum / difference with a non-zero
+/// constant (`-(x - 3)`, `-2(x - 3)` = `Neg(2 * (x - 3))`, `-(3 - x) * 2`) against the explicit-product spelling
+/// (`-1 * (x - 3)`, `-2 * (x - 3)`, `(3 - x) * -2`, `-2x + 6`).  `flatten` leaves the negation of a sum alone, so it is
+/// the bound inference's affine recogniser (`AffineForm::from_exp`, unary-minus arm) that reads it.  Own forked
+/// stream, fixed count; compared on inferred ranges + published domains, acceptance / error kind, rows.
+fn respell_negation_cases(seed: u64, count: usize) -> Vec<Case> {
+    use rooc::{Comparison, OptimizationType, VariableType};
+    let mut rr = Rng::new(seed ^ 0x0C10_8E6A_7103);
+    let r = &mut rr;
+    let num = |v: f64| Exp::Number(v);
+    let var = |n: &str| Exp::Variable(n.into());
+    let bx = |op: BinOp, l: Exp, x: Exp| Exp::BinOp(op, Box::new(l), Box::new(x));
+    let neg = |e: Exp| Exp::UnOp(UnOp::Neg, Box::new(e));
+    let mut out = vec![];
+    for i in 0..count {
+        let k = *r.pick(&[3.0, 1.0, 5.0, 2.5, 7.0]);
+        let c2 = *r.pick(&[2.0, 3.0, 4.0]);
+        let b = 10.0 + r.below(12) as f64;
+        let ds = vec![
+            gen_model::VarDecl { name: "x".into(), ty: VariableType::Real(0.0, 100.0) },
+            gen_model::VarDecl { name: "y".into(), ty: VariableType::Real(-50.0, 50.0) },
+        ];
+        let xm = || bx(BinOp::Sub, var("x"), num(k));          // x - k
+        let mx = || bx(BinOp::Sub, num(k), var("x"));          // k - x
+        // (with unary minus, explicit product)
+        let (t1, t2): (Exp, Exp) = match i % 6 {
+            0 => (neg(xm()), bx(BinOp::Mul, num(-1.0), xm())),
+            1 => (neg(bx(BinOp::Mul, num(c2), xm())), bx(BinOp::Mul, num(-c2), xm())),
+            2 => (bx(BinOp::Mul, neg(mx()), num(c2)), bx(BinOp::Mul, mx(), num(-c2))),
+            3 => (neg(bx(BinOp::Mul, num(c2), xm())), bx(BinOp::Add, bx(BinOp::Mul, num(-c2), var("x")), num(c2 * k))),
+            4 => (neg(bx(BinOp::Add, var("x"), num(k))), bx(BinOp::Sub, bx(BinOp::Mul, num(-1.0), var("x")), num(k))),
+            _ => (bx(BinOp::Add, neg(bx(BinOp::Mul, num(c2), bx(BinOp::Add, xm(), var("y")))), var("y")),
+                  bx(BinOp::Add, bx(BinOp::Mul, num(-c2), bx(BinOp::Add, xm(), var("y"))), var("y"))),
+        };
+        let on_rhs = r.chance(1, 4);
+        let mk = |t: Exp| {
+            let c = if on_rhs { Constraint::new(num(-b), Comparison::LessOrEqual, t, String::new()) }
+                    else { Constraint::new(t, Comparison::GreaterOrEqual, num(-b), String::new()) };
+            gen_model::build(OptimizationType::Max, var("x"), vec![c], &ds)
+        };
+        let (m1, m2) = (mk(t2), mk(t1));
+        let (a, bb) = (Linearizer::linearize(m1.clone()), Linearizer::linearize(m2.clone()));
+        let (b1, b2) = (crate::props::c01::bounds_sx(&m1), crate::props::c01::bounds_sx(&m2));
+        let mut c = Case::default();
+        c.show = format!("{}  ~~product respelled with a unary minus~~>  {}", format!("{}", m1).replace('\n', " ; "), format!("{}", m2).replace('\n', " ; "));
+        c.tags = vec!["respell".into(), "respell-unary-minus".into()];
+        c.nontrivial = true;
+        let err = |e: &rooc::LinearizationError| crate::props::c01::lin_error(e);
+        if b1 != b2 {
+            c.imp = "(bounds-differ)".into();
+            c.sig = Some("respelling-changes-bounds".into());
+            c.impl_violation = Some(format!("a product spelled with a unary minus in front of a parenthesised sum: inferred ranges / published domains differ: {} {}  vs  {} {}", b1.0, b1.1, b2.0, b2.1));
+        } else {
+            match (&a, &bb) {
+                (Ok(la), Ok(lb)) => {
+                    c.imp = "(both-compile)".into();
+                    if sx::lin_model(la) == sx::lin_model(lb) { c.tags.push("respell-identical-output".into()); }
+                    else {
+                        c.tags.push("respell-different-output".into());
+                        c.oracle = format!("py:{} {} {}", if i % 2 == 0 { "c01" } else { "c02" }, sx::model(&m1), sx::lin_model(lb));
+                    }
+                }
+                (Err(x), Err(y)) if err(x) == err(y) => { c.imp = format!("(both-rejected {})", err(x)); c.tags.push("respell-both-rejected".into()); }
+                (x, y) => {
+                    c.imp = format!("(acceptance-differs {} {})", x.is_ok(), y.is_ok());
+                    c.sig = Some("respelling-changes-acceptance".into());
+                    let e = |z: &Result<rooc::LinearModel, rooc::LinearizationError>| z.as_ref().err().map(|e| err(e)).unwrap_or("(ok)".into());
+                    c.impl_violation = Some(format!("a product spelled with a unary minus: {} vs {}", e(x), e(y)));
                 }
             }
         }
@@ -454,5 +781,9 @@ pub fn generate(seed: u64, n: usize, thorough: bool, _corpus: Option<&str>) -> V
         if let Some(c) = respell_case(&mut r) { cases.push(c); }
     }
     cases.extend(respell_block_cases(&mut r, if thorough { 600 } else { 60 }));
+    cases.extend(respell_position_cases(&mut r, if thorough { 1600 } else { 160 }));
+    cases.extend(respell_division_cases(seed, if thorough { 600 } else { 60 }));
+    cases.extend(nested_undefined_cases(seed, if thorough { 576 } else { 144 }));
+    cases.extend(respell_negation_cases(seed, if thorough { 480 } else { 60 }));
     cases
 }
